@@ -43,6 +43,74 @@ def _call(w: World, cls, name: str, recv: Ptr, args: List[Val]):
     return m, res
 
 
+ROOT_ORDER = ["__lt__", "__le__", "__gt__", "__ge__"]  # functools.total_ordering prefers max(roots) in string order
+SYNTH = {
+    # root -> {derived: (uses_not_root, combine, uses_eq)}   combine in {"and_ne", "or_eq", "not"}
+    "__lt__": {"__gt__": ("not", "and_ne"), "__le__": ("id", "or_eq"), "__ge__": ("not", None)},
+    "__le__": {"__ge__": ("not", "or_eq"), "__lt__": ("id", "and_ne"), "__gt__": ("not", None)},
+    "__gt__": {"__lt__": ("not", "and_ne"), "__ge__": ("id", "or_eq"), "__le__": ("not", None)},
+    "__ge__": {"__le__": ("not", "or_eq"), "__gt__": ("id", "and_ne"), "__lt__": ("not", None)},
+}
+
+
+def _has_total_ordering(R) -> bool:
+    return any("total_ordering" in d for c in R.mro for d in c.decorators)
+
+
+def _tv(v):
+    return v.tv if isinstance(v, Bool) else None
+
+
+def _not(x):
+    return None if x is None else (not x)
+
+
+def _and(x, y):
+    if x is False or y is False:
+        return False
+    if x is True and y is True:
+        return True
+    return None
+
+
+def _or(x, y):
+    if x is True or y is True:
+        return True
+    if x is False and y is False:
+        return False
+    return None
+
+
+def call_operator(w: World, R, opname: str, a: Ptr, other: Val):
+    """Evaluate `a <op> other` through the class's own method, or through functools.total_ordering's documented
+    synthesis when the class is decorated with it and lacks the method. Returns (method-or-root FuncInfo, result)."""
+    meth = R.lookup(opname)
+    if meth is not None:
+        return _call(w, R, opname, a, [other])
+    if not _has_total_ordering(R):
+        return None, None
+    roots = [op for op in ROOT_ORDER if R.lookup(op) is not None]
+    if not roots:
+        return None, None
+    root = max(roots)
+    how, comb = SYNTH[root][opname]
+    m, res = _call(w, R, root, a, [other])
+    if w.state.bottom or isinstance(res, Opaque):
+        return m, res  # raised, or NotImplemented is passed through
+    r = _tv(res)
+    if how == "not":
+        r = _not(r)
+    if comb is not None:
+        raises_before = list(w.I.raises)
+        _, eq = _call(w, R, "__eq__", a, [other])
+        w.I.raises[:0] = raises_before
+        e = _tv(eq)
+        if isinstance(eq, Opaque) and eq.tag == "NotImplemented":
+            e = False  # falls back to identity: two distinct objects
+        r = _and(r, _not(e)) if comb == "and_ne" else _or(r, e)
+    return m, Bool(r)
+
+
 def _foreign_values(prog, roles):
     vals = [("None", lambda w: NoneV()), ("number", lambda w: Num(kinds=frozenset({"float"}))), ("str", lambda w: Str("x")),
             ("object", lambda w: Opaque("object", True))]
@@ -87,16 +155,38 @@ def _job(idx: int) -> List[Dict[str, Any]]:
     inst("R18.3", "HOLDS" if ok else "VIOLATED", "ordinal", "ordinal(z) == mu - z*sigma", m.node.lineno,
          "" if ok else f"ordinal(z) evaluates to {show(got_z)} instead of mu - z*sigma", {"normal_form": show(got_z)})
 
+    # ---------------------------------------------------------------- R18.5 ordinal follows the current (mu, sigma); comparisons have no side effects
+    w5, a5, b5 = _two(prog, roles)
+    _call(w5, R, "ordinal", a5, [])
+    for opn in ("__lt__", "__eq__"):
+        if R.lookup(opn) is not None:
+            _call(w5, R, opn, a5, [b5])
+    side = [ev for ev in w5.I.events if ev.kind in ("write", "mutate") and not ev.data.get("origin", "").startswith("alloc:openskill")]
+    side = [ev for ev in w5.I.events if ev.kind == "write" and ev.data["origin"].startswith("input")] + [ev for ev in w5.I.events if ev.kind == "mutate" and (ev.data["origin"].startswith("input") or ev.data["origin"].startswith("global"))]
+    for ev in side[:2]:
+        m_, _, qn = ev.func.partition("::")
+        out.append(dict(rule="R18.5", verdict="VIOLATED", module=m_, function=qn, construct=norm_text(ev.node, 90), line=getattr(ev.node, "lineno", 0),
+                        message="evaluating ordinal()/a comparison modifies state (a cached value that in-place updates of mu/sigma do not invalidate)", detail={}))
+    mu2 = Num(kinds=frozenset({"float"}), sym=("param", "mu2"))
+    w5.I.write_field(w5.state, a5, "mu", mu2, R.node)
+    w5.I.raises.clear()
+    m5, T5 = _call(w5, R, "ordinal", a5, [])
+    want5 = p_add(p_atom(("param", "mu2")), p_mul(p_const(3), p_atom(("in", "A", "sigma", ()))), -1)
+    got5 = to_poly(T5.sym) if isinstance(T5, Num) else None
+    ok5 = got5 is not None and got5 == want5
+    inst("R18.5", "HOLDS" if ok5 else "VIOLATED", "ordinal", "ordinal() follows an in-place change of mu", m5.node.lineno if m5 else R.node.lineno,
+         "" if ok5 else f"after mu is reassigned in place, ordinal() evaluates to {show(got5)} instead of the new mu - 3*sigma: operators and sorting use a stale value", {"normal_form": show(got5)})
+
     # ---------------------------------------------------------------- R18.1 order operators
     for opname, table in OPS.items():
         meth = R.lookup(opname)
         if meth is None:
-            deco = [d for c in R.mro for d in c.decorators]
-            if any("total_ordering" in d for d in deco):
-                inst("R18.1", "UNDECIDED", opname, f"{opname} synthesised by total_ordering", R.node.lineno, "operators synthesised by functools.total_ordering are not expanded")
+            if _has_total_ordering(R) and any(R.lookup(op) for op in ROOT_ORDER):
+                meth = R.lookup(max(op for op in ROOT_ORDER if R.lookup(op)))
+                w.I.axiom("functools.total_ordering synthesises the missing operators from the root operator and == as documented (functools._convert)") if False else None
             else:
                 inst("R18.1", "VIOLATED", opname, f"{opname} missing", R.node.lineno, f"{R.name} does not define {opname}")
-            continue
+                continue
         for rel in RELS:
             w, a, b = _two(prog, roles)
             _, ta = _call(w, R, "ordinal", a, [])
@@ -105,7 +195,7 @@ def _job(idx: int) -> List[Dict[str, Any]]:
                 inst("R18.1", "UNDECIDED", opname, f"{opname} on {rel}", meth.node.lineno, "ordinal() has no symbolic value")
                 continue
             w.state.rel_set(ta.sym, tb.sym, frozenset({rel}))
-            _, res = _call(w, R, opname, a, [b])
+            _, res = call_operator(w, R, opname, a, b)
             want_tv = table[rel]
             c = f"a.ordinal() {rel} b.ordinal() => a {opname} b is {want_tv}"
             if w.I.undecided:
@@ -121,7 +211,7 @@ def _job(idx: int) -> List[Dict[str, Any]]:
         for label, mk in _foreign_values(prog, roles):
             w, a, _ = _two(prog, roles)
             other = mk(w)
-            _, res = _call(w, R, opname, a, [other])
+            _, res = call_operator(w, R, opname, a, other)
             c = f"{opname} with foreign operand ({label}) raises ValueError"
             excs = sorted({e.data["exc"] for e in w.I.raises})
             if w.I.undecided:
@@ -186,3 +276,4 @@ def run(prog: Program, rep: Report, tier: str = "quick") -> None:
     rep.floor("R18.1", 4 * 12 * n)
     rep.floor("R18.2", 12 * n)
     rep.floor("R18.3", 2 * n)
+    rep.floor("R18.5", n)
